@@ -159,3 +159,26 @@ PROPS["C03"] = dict(
         "the run ends adaptively once no survivor lists a victim or holds it alive/suspect; pairs not yet due at the end are counted as not-due, not as passes",
     ],
 )
+
+PROPS["C05"] = dict(
+    title="Views re-converge to the live set once faults stop",
+    pkg="./props/c05",
+    level="fault_enumeration",
+    rule=("3-7 (thorough 3-12) real nodes formed on a perfect network, then a fault phase of 8-45 virtual seconds with hash-drawn loss (0-40%), duplication, "
+          "delay up to 1.2 s (reordering), refused and cut streams, and up to 8 timed events: crash (host up or down), same-name same-address restart with "
+          "re-join, graceful leave followed by shutdown, UpdateNode, symmetric or asymmetric partitions and heals; then a perfect network and no operations. "
+          "The connectivity precondition is evaluated on Members() of the live nodes when faults stop (false = counted, not checked). Oracle, polled every "
+          "virtual second up to the cap n*B + 40 push/pull intervals + 30 s (then one more cap): every live node lists exactly the live set with the owner's "
+          "current metadata and no live node is suspect/dead in any state dump; event logs replay to Members(). non-trivial = disagreement (membership, "
+          "metadata or accusation) existed when faults stopped; distinct = distinct plans"),
+    tests=[
+        dict(name="conv", run="^TestConvergence$",
+             quick=dict(shards=16, checks=25, timeout=1200),
+             thorough=dict(shards=16, checks=700, timeout=3400)),
+    ],
+    assumptions=CLUSTER_ASSUMPTIONS + [
+        "the settling cap is a probabilistic bound (random peer selection); a case unconverged at the cap is observed for one more cap before being reported",
+        "non-convergence that ends in a clean split is the listed known finding C05-late-split and is counted under excluded_known, any other non-convergence is a violation",
+    ],
+    max_known_fraction=dict(quick=0.25, thorough=0.06),
+)
